@@ -10,7 +10,8 @@ import Driver.Util
   (b) the history is replayed through the model `IceModel.TaskLoop.step`: for every recorded event an
       enabled model action with that label must exist, internal (unobservable) actions being searched.
       Model output `recorded` when some execution of the model has exactly this observable trace,
-      `rejected:<why>` otherwise (then MISMATCH: the code left the model).
+      `rejected:<why>` when none has (then MISMATCH: the code left the model).  The search is bounded (`closureFuel`):
+      if it runs out of fuel before the frontier empties the line is INCONCLUSIVE (`recorded` + `Res.inconclusive`).
 * `taskloop skel <func>` — source shape of taskloop.go (token text); the expected text is the one the
   model was written against.
 * `taskloop guard <func> <field> <r|w>` / `taskloop fieldclass <field>` — the API-guard table: an Agent
@@ -151,6 +152,13 @@ def norm (c : Cfg) (fuel : Nat) (s : MState) : MState :=
     | some s' => norm c fuel (compact c s')
     | none => s
 
+/-- Fuel of `norm`: a TERMINATION DEVICE that provably suffices, not a search budget.  Every thread of the model is
+one-shot and its program counter only moves forward (`IceModel.TaskLoop.step`: a submitter goes idle → check → select →
+handedOff → ret, a closer idle → atOnce → inStore → inCloseDone → inPreStop → inOnceExit → waitTLD → returned,
+`privDone` and `tld` are set once).  Over a WHOLE execution the eager actions therefore fire at most: `errCheckPass`
+once per submitter, `closePriv` once per submitter, `storeErr`/`preStopNil`/`onceExit` (or `onceSkip`) at most three
+per closer, `closeTLD` once — in total ≤ 2·nSub + 3·nClose + 1 < `normFuel`.  `norm` hence always stops because no
+eager action is enabled, never because the fuel ran out. -/
 def normFuel (c : Cfg) : Nat := 6 * (c.nSub + c.nClose) + 8
 
 /-- Internal actions that resolve a race: explored both ways. -/
@@ -165,19 +173,23 @@ def insertNew (c : Cfg) (fr : Frontier) (s : MState) : Frontier × Bool :=
   let k := key c s
   if fr.any (fun p => p.1 == k) then (fr, false) else ((k, s) :: fr, true)
 
-/-- Close a set of states under the branching internal actions (each followed by `norm`). -/
-def closure (c : Cfg) (fuel : Nat) (work : List MState) (seen : Frontier) : Frontier :=
-  match fuel with
-  | 0 => seen
-  | fuel + 1 =>
-    match work with
-    | [] => seen
-    | s :: rest =>
+/-- Close a set of states under the branching internal actions (each followed by `norm`).  `fuel` bounds the number of
+expansions; the flag is `true` iff the work list was emptied (the returned set IS the closure) and `false` iff the
+search gave up with states still unexpanded (the returned set is only a subset of the closure). -/
+def closure (c : Cfg) (fuel : Nat) (work : List MState) (seen : Frontier) : Frontier × Bool :=
+  match work with
+  | [] => (seen, true)
+  | s :: rest =>
+    match fuel with
+    | 0 => (seen, false)
+    | fuel + 1 =>
       let succs := (branchActions c).filterMap (fun a => (modelStep s a).map (fun s' => norm c (normFuel c) (compact c s')))
       let (seen', new) := succs.foldl (fun (acc : Frontier × List MState) s' =>
         let (fr, isNew) := insertNew c acc.1 s'
         if isNew then (fr, s' :: acc.2) else (fr, acc.2)) (seen, [])
       closure c fuel (new ++ rest) seen'
+
+def closureFuel : Nat := 100000
 
 /-- Model actions carrying the label of a recorded event. -/
 def actionsFor (c : Cfg) : HEv → List Action
@@ -196,24 +208,33 @@ def actionsFor (c : Cfg) : HEv → List Action
   | .oncloseEnd => [.onCloseEnd]
   | .cret j => [.waitTLD j]
 
-def stepFrontier (c : Cfg) (fr : Frontier) (e : HEv) : Frontier :=
-  let cl := closure c 100000 (fr.map (·.2)) fr
-  cl.foldl (fun acc p =>
+def stepFrontier (c : Cfg) (fr : Frontier) (e : HEv) : Frontier × Bool :=
+  let (cl, complete) := closure c closureFuel (fr.map (·.2)) fr
+  (cl.foldl (fun acc p =>
     (actionsFor c e).foldl (fun acc a =>
       match modelStep p.2 a with
       | some s' => (insertNew c acc (norm c (normFuel c) (compact c s'))).1
-      | none => acc) acc) []
+      | none => acc) acc) [], complete)
 
-/-- `none` = accepted; `some (k, size)` = event number k (0-based) has no enabled action in any model state
-compatible with the prefix. -/
-def accept (c : Cfg) (evs : List HEv) : Option Nat :=
+inductive Verdict where
+  /-- some execution of the model has exactly this observable trace (every state carried is a witness) -/
+  | accepted
+  /-- event number k (0-based) has no enabled action in ANY model state compatible with the prefix — every closure up to
+  and including the one before event k was complete -/
+  | rejected (k : Nat)
+  /-- the frontier became empty at event k, but a closure at or before k had run out of fuel: the state that explains
+  the event may simply not have been reached — no verdict -/
+  | gaveUp (k : Nat)
+
+def accept (c : Cfg) (evs : List HEv) : Verdict :=
   let s0 := norm c (normFuel c) (compact c mInit)
-  let rec go (fr : Frontier) (k : Nat) : List HEv → Option Nat
-    | [] => none
+  let rec go (fr : Frontier) (k : Nat) (complete : Bool) : List HEv → Verdict
+    | [] => .accepted
     | e :: es =>
-      let fr' := stepFrontier c fr e
-      if fr'.isEmpty then some k else go fr' (k + 1) es
-  go [(key c s0, s0)] 0 evs
+      let (fr', ok) := stepFrontier c fr e
+      let complete := complete && ok
+      if fr'.isEmpty then (if complete then .rejected k else .gaveUp k) else go fr' (k + 1) complete es
+  go [(key c s0, s0)] 0 true evs
 
 /-- ids used by a history. -/
 def cfgOf (evs : List HEv) : Cfg :=
@@ -237,10 +258,12 @@ def histLine (hmeta : String) (toks : List String) (impl : String) : Res :=
       else
         let h := evs.filterMap toEv
         if complete then completeViolation h c.nSub c.nClose else monitor h
-    let model := match accept c evs with
-      | none => "recorded"
-      | some k => s!"rejected:event-{k}-{toks.getD k "?"}-has-no-enabled-model-action"
-    { model := model, monitor := mon, prop := "C10" }
+    let (model, inc) := match accept c evs with
+      | .accepted => ("recorded", none)
+      | .rejected k => (s!"rejected:event-{k}-{toks.getD k "?"}-has-no-enabled-model-action", none)
+      | .gaveUp k =>
+        ("recorded", some s!"closure over the race-resolving internal actions ran out of fuel ({closureFuel} expansions) at or before event {k} ({toks.getD k "?"})")
+    { model := model, monitor := mon, prop := "C10", inconclusive := inc }
 
 /-! ## source shape -/
 
